@@ -1130,7 +1130,25 @@ Plan gen_c14(uint64_t seed, bool th) {
   // the operation under test
   int c = g.a_client();
   int op = (int)g.r.below(100);
-  if (op < 22) g.add(g.mk("reqname", c, {(int64_t)g.r.below(8), -1}, {g.a_name()}));
+  if (g.r.pct(9)) {
+    // "parsing ... a configuration file": ReloadConfig with a different file in place - other limits, another
+    // policy, a service directory.  Either all of it is in force afterwards, or (NoMemory) none of it.
+    g.p.cfg["reload"] = "1";
+    if (th) g.p.cfg["oom.all"] = "1";
+    if (g.r.pct(60)) g.p.cfg["reload.lim.rules"] = std::to_string(g.r.range(0, 2));
+    if (g.r.pct(60)) g.p.cfg["reload.lim.names"] = std::to_string(g.r.range(1, 2));
+    int pk = (int)g.r.below(3);
+    if (pk == 1) g.p.cfg["reload.policy.spec"] = pol::encode(requested_replies_only_policy());
+    else if (pk == 2) {
+      pol::Policy p = requested_replies_only_policy();
+      { pol::Rule r = prule(false, pol::Rule::SEND); r.type = pol::Opt("signal"); r.interface = pol::Opt("com.example.Iface"); r.member = pol::Opt("Do"); p.blocks[0].rules.push_back(r); }
+      { pol::Rule r = prule(false, pol::Rule::OWN); r.own = g.a_name(); p.blocks[0].rules.push_back(r); }
+      g.p.cfg["reload.policy.spec"] = pol::encode(p);
+    }
+    if (g.r.pct(50)) g.p.cfg["reload.activatable"] = g.r.pct(50) ? "com.example.act1" : "com.example.act1,com.example.act2";
+    g.add(g.mk("query", c, {-1}, {"ReloadConfig", ""}));
+  }
+  else if (op < 22) g.add(g.mk("reqname", c, {(int64_t)g.r.below(8), -1}, {g.a_name()}));
   else if (op < 32) g.add(g.mk("relname", c, {-1}, {g.a_name()}));
   else if (op < 44) { bool vh; std::string rule = gen_rule(g, &vh); g.add(g.mk("addmatch", c, {-1}, {vh ? rule : std::string("type='signal',member='Do'")})); }
   else if (op < 52) { g.add(g.mk("rmmatch", c, {-1}, {"type='signal',sender='org.freedesktop.DBus',member='NameOwnerChanged'"})); }
@@ -1157,6 +1175,17 @@ Plan gen_c14(uint64_t seed, bool th) {
   else g.add(g.mk("query", c, {-1}, {g.r.pct(50) ? "ListQueuedOwners" : "ListNames", g.a_name()}));
   g.add(g.mk("oombus", -1, {4, (int64_t)(g.r.next() & 0x7fffffff)}));
   g.add(g.mk("oomcheck"));
+  if (g.p.cfg.count("reload")) {
+    // before the retry puts the new configuration in force anyway: which configuration governs now?
+    g.add(g.mk("query", 1, {-1}, {"ListActivatableNames", ""}));
+    g.add(g.mk("query", 0, {-1}, {"StartServiceByName", "com.example.nosuch"}));
+    g.add(g.mk("addmatch", 2, {-1}, {"type='signal',member='Probe3'"}));
+    g.add(g.mk("reqname", 2, {4, -1}, {g.sh.names[1]}));
+    g.add(g.mk("reqname", 2, {4, -1}, {"com.example.probe0"}));
+    g.add(g.mk("send", 1, {4, 0, -1}, {"", "/com/example/obj", "com.example.Iface", "Do", "", "", "s:a"}));
+    g.add(g.bus_step(3));
+    g.add(g.mk("check"));
+  }
   g.add(g.mk("oomretry"));
   g.add(g.bus_step(3));
   g.add(g.mk("check"));
@@ -1166,6 +1195,15 @@ Plan gen_c14(uint64_t seed, bool th) {
     g.add(g.mk("query", 1, {-1}, {"GetNameOwner", n}));
   }
   g.add(g.mk("query", 0, {-1}, {"ListNames", ""}));
+  if (g.p.cfg.count("reload")) {
+    // the configuration by behaviour: service files, the rule and name limits, the ownership rule
+    g.add(g.mk("query", 1, {-1}, {"ListActivatableNames", ""}));
+    g.add(g.mk("addmatch", 2, {-1}, {"type='signal',member='Probe1'"}));
+    g.add(g.mk("addmatch", 2, {-1}, {"type='signal',member='Probe2'"}));
+    g.add(g.mk("reqname", 2, {4, -1}, {g.sh.names[0]}));
+    g.add(g.mk("reqname", 2, {4, -1}, {"com.example.probe"}));
+    g.add(g.bus_step(3));
+  }
   g.add(g.mk("send", 1, {4, 0, -1}, {"", "/com/example/obj", "com.example.Iface", "Do", "", "", "s:a"}));
   g.add(g.mk("send", 0, {4, 0, -1}, {"", "/", "org.test.Other", "Get", "", "", "s:/aa/bb/"}));
   g.add(g.mk("reply", g.a_client(), {0, 0, -1}));
